@@ -217,7 +217,7 @@ def run_shape(shape, tier):
                 fa = au.to(units.rad)
                 fp = un["P"].to(units.day)
                 for tag, TT, phase in (("time_with_phase", T, ph), ("get_t0", T0, 0)):
-                    tv = TT._v if isinstance(TT, units.Time) else None
+                    tv = TT.tcb._v if isinstance(TT, units.Time) else None       # compared on one time scale (the epoch is given in UTC)
                     tc = list(tv.a.flat) if isinstance(tv, symnp.SymArray) else ([tv] if tv is not None else None)
                     if tc is None or len(tc) != n:
                         sink.check(path, tag, core.SB(z3.BoolVal(False)), site="get_time_with_phase", describe=desc)
@@ -226,7 +226,7 @@ def run_shape(shape, tier):
                     for i in range(n):
                         # mean anomaly at T: 2 pi (T - t_ref)/P - M0 == phase   <=>  2 pi (T - t_ref) == P (M0 + phase)
                         Pd = cells["P"][i] * fp
-                        lhs = (tc[i] - tref._v) * (2 * math.pi)
+                        lhs = (tc[i] - tref.tcb._v) * (2 * math.pi)
                         rhs = Pd * ((cells["M0"][i] + phase) * fa)
                         cl.append(L(lhs) == L(rhs))
                     sink.check(path, tag, core.SB(z3.And(cl)), site="get_time_with_phase", describe=_desc(cells, {"phase": ph}))
@@ -322,7 +322,7 @@ def replay(cand):
           "K": u.km / u.s, "v0": u.km / u.s, "v1": u.km / u.s / u.day}
     if shape.get("P_unit") == "sym":
         un["P"] = u.def_unit("psym", 3.7 * u.hour)
-    tref = Time(57000.0 + f(m.get("t_ref", "0")) if "t_ref" in m else 57000.0, format="mjd", scale="tcb")
+    tref = Time(57000.0 + f(m.get("t_ref", "0")) if "t_ref" in m else 57000.0, format="mjd", scale="utc")     # a non-TCB epoch, as in the model
     s = JokerSamples(poly_trend=2, n_offsets=0, t_ref=tref)
     raw = {}
     for c in COLS:
@@ -403,6 +403,8 @@ def replay(cand):
                     bad.append("mean of %s wrong" % c)
             meta_ok(mean, "mean")
             med = s.median_period()
+            if len(med) != 1:
+                bad.append("median_period returned %d rows instead of one member row (P=%s)" % (len(med), raw["P"].tolist()))
             Pm = float(np.atleast_1d(med["P"].to_value(un["P"]))[0])
             srt = np.sort(raw["P"])
             if not np.isclose(Pm, srt[n // 2], rtol=1e-14):
